@@ -555,10 +555,49 @@ fn arg_value() -> BoxedStrategy<V> {
     .boxed()
 }
 
+/// AMF0 bodies whose length / count fields announce far more than the body holds (the cost of
+/// decoding must follow the bytes received, not the number announced): an optional well-formed
+/// start (command name, transaction id, null), then a strict array / ECMA array / long string /
+/// string / object property name with a huge or merely too large count, then a few bytes.
+pub fn lying_amf0_body() -> BoxedStrategy<Vec<u8>> {
+    (
+        gen::pick(&[0u8, 1, 2, 3]),
+        gen::pick(&[0x0Au8, 0x08, 0x0C, 0x02, 0x03, 0x0A, 0x0A]),
+        prop_oneof![3 => gen::pick(&[0xFFFF_FFFFu32, 0xFFFF_FFFE, 0x8000_0000, 0x7FFF_FFFF, 0xFFFF_0000, 0xC000_0000]), 1 => gen::pick(&[0x0100_0000u32, 0x00FF_FFFF, 65536, 1000, 3]), 1 => any::<u32>()],
+        proptest::collection::vec(prop_oneof![gen::pick(&[0x05u8, 0x06, 0x01, 0x00, 0x09, 0x0A, 0x03]), any::<u8>()], 0..12),
+        any::<bool>(),
+    )
+        .prop_map(|(start, marker, count, tail, amf3_zero)| {
+            let mut b = Vec::new();
+            if amf3_zero {
+                b.push(0);
+            }
+            if start >= 1 {
+                b.extend_from_slice(&[0x02, 0x00, 0x01, 0x78]);
+            }
+            if start >= 2 {
+                b.extend_from_slice(&[0x00, 0x3F, 0xF0, 0, 0, 0, 0, 0, 0]);
+            }
+            if start >= 3 {
+                b.push(0x05);
+            }
+            b.push(marker);
+            match marker {
+                0x02 => b.extend_from_slice(&[(count >> 24) as u8, (count >> 16) as u8]),
+                0x03 => b.extend_from_slice(&[0x00, 0x01, 0x61, 0x0A, (count >> 24) as u8, (count >> 16) as u8, (count >> 8) as u8, count as u8]),
+                _ => b.extend_from_slice(&count.to_be_bytes()),
+            }
+            b.extend(tail);
+            b
+        })
+        .boxed()
+}
+
 pub fn fitem() -> BoxedStrategy<FItem> {
     let body = prop_oneof![2 => Just(Vec::new()), 5 => proptest::collection::vec(any::<u8>(), 1..24), 2 => proptest::collection::vec(any::<u8>(), 24..600)];
     prop_oneof![
         5 => (prop_oneof![3 => any::<u8>(), 5 => gen::pick(crate::refs::msg::KNOWN_TYPES)], body, small_msid()).prop_map(|(type_id, body, msid)| FItem::Raw { type_id, body, msid }),
+        2 => (gen::pick(&[20u8, 18, 17, 15]), lying_amf0_body(), small_msid()).prop_map(|(type_id, body, msid)| FItem::Raw { type_id, body, msid }),
         10 => (0u8..CMD_NAMES.len() as u8, prop_oneof![4 => (0u32..6).prop_map(|i| (i as f64).to_bits()), 1 => gen::amf_number_bits()], arg_value(), proptest::collection::vec(arg_value(), 0..6), small_msid(), 0u8..3)
             .prop_map(|(name, tid, obj, args, msid, amf3)| FItem::Cmd { name, tid, obj, args, msid, amf3 }),
         4 => (proptest::collection::vec(prop_oneof![2 => gen::pick(&["@setDataFrame", "onMetaData", "onStatus", "|RtmpSampleAccess"]).prop_map(|s| st(s)), 3 => arg_value()], 0..5), small_msid(), any::<bool>()).prop_map(|(values, msid, amf3)| FItem::Data { values, msid, amf3 }),
@@ -652,6 +691,15 @@ fn fixed(_ctx: &Ctx) -> Vec<Case> {
             v.push(Case { target: tgt, input: Input::Framed(vec![(FItem::SetChunkSize(n), 0), (FItem::Raw { type_id: 9, body: vec![7; 300], msid: 1 }, 0), (FItem::UserControl { event: 6, fields: vec![5] }, 0)]), partition: Partition::Whole });
         }
     }
+    // AMF0 strict array announcing 2^32-1 elements and holding one (seeded change C03-r7m1: an element
+    // loop that no longer stops at the end of the input)
+    for (type_id, pre) in [(20u8, &[0x02u8, 0x00, 0x01, 0x78, 0x00, 0x3F, 0xF0, 0, 0, 0, 0, 0, 0][..]), (18, &[][..])] {
+        let mut body = pre.to_vec();
+        body.extend_from_slice(&[0x0A, 0xFF, 0xFF, 0xFF, 0xFF, 0x05]);
+        v.push(Case { target: Target::MessageDecoder, input: Input::Raw([&[type_id, 0, body.len() as u8][..], &body[..]].concat()), partition: Partition::Whole });
+        v.push(Case { target: Target::Server(1), input: Input::Framed(vec![(FItem::Raw { type_id, body: body.clone(), msid: 0 }, 0)]), partition: Partition::Whole });
+        v.push(Case { target: Target::Client(1), input: Input::Framed(vec![(FItem::Raw { type_id, body, msid: 0 }, 0)]), partition: Partition::Whole });
+    }
     // a header announcing 16 MiB followed by little data
     v.push(Case { target: Target::Deserializer, input: Input::Headers(vec![HChunk { fmt: 0, cs: 5, cs_extra: [0, 0], ts24: 0, len24: 0xFF_FFFF, type_id: 9, msid: 1, ext: 0, ext_mode: 0, payload: 128, fill: 3 }; 4]), partition: Partition::Whole });
     v
@@ -676,7 +724,7 @@ pub fn spec() -> PropSpec {
     PropSpec {
         id: "C03",
         level: "exploration",
-        rule: "(arguments and handler-read properties include strings of 65471..65535 bytes made of 1- to 4-byte characters) inputs: (a) raw bytes and mutated valid streams / handshakes, (b) well-framed chunk streams from the reference peer carrying arbitrary (type id, body) messages, truncated valid bodies, protocol commands (names connect, createStream, publish, play, closeStream, deleteStream, _result, _error, onStatus, @setDataFrame, onMetaData, unknown, empty; types 20 / 17 / 17+0x00) with 0..6 arguments from the AMF0 generator and from pools of the values handlers inspect, data messages, control messages with edge values (chunk size 0 / 2^31 / 2^32-1, unknown user-control events, bad limit types), interleaved with application calls (accept / reject with plausible and arbitrary ids, sends, finish_playing, client requests / stops / publishes), (c) adversarial chunk headers (formats 0-3, 1/2/3-byte csid forms, 24-bit fields 0 / 1 / 0xFFFFFE / 0xFFFFFF, lengths smaller than what is buffered, extended field present / absent / contradicting the rule, small extended values); targets: handshake (both roles), chunk deserializer, message decoder, server and client sessions fresh / connected / publishing / playing; every stream under a generated partition. Sub-check 'isolated-memory-and-time' runs the cases in worker processes (heap cap, watchdog, peak heap <= 256 x bytes fed + 17 MiB); sub-check 'no-panic-in-process' runs the same generator in-process so a failure is shrunk. Non-trivial = the input produced at least one message / result, or an error after successful progress, or >= 2 successful calls; distinct = distinct case",
+        rule: "(arguments and handler-read properties include strings of 65471..65535 bytes made of 1- to 4-byte characters) inputs: (a) raw bytes and mutated valid streams / handshakes, (b) well-framed chunk streams from the reference peer carrying arbitrary (type id, body) messages, truncated valid bodies, AMF0 bodies whose count / length fields announce up to 2^32-1 elements or bytes and hold a few, protocol commands (names connect, createStream, publish, play, closeStream, deleteStream, _result, _error, onStatus, @setDataFrame, onMetaData, unknown, empty; types 20 / 17 / 17+0x00) with 0..6 arguments from the AMF0 generator and from pools of the values handlers inspect, data messages, control messages with edge values (chunk size 0 / 2^31 / 2^32-1, unknown user-control events, bad limit types), interleaved with application calls (accept / reject with plausible and arbitrary ids, sends, finish_playing, client requests / stops / publishes), (c) adversarial chunk headers (formats 0-3, 1/2/3-byte csid forms, 24-bit fields 0 / 1 / 0xFFFFFE / 0xFFFFFF, lengths smaller than what is buffered, extended field present / absent / contradicting the rule, small extended values); targets: handshake (both roles), chunk deserializer, message decoder, server and client sessions fresh / connected / publishing / playing; every stream under a generated partition. Sub-check 'isolated-memory-and-time' runs the cases in worker processes (heap cap, watchdog, peak heap <= 256 x bytes fed + 17 MiB); sub-check 'no-panic-in-process' runs the same generator in-process so a failure is shrunk. Non-trivial = the input produced at least one message / result, or an error after successful progress, or >= 2 successful calls; distinct = distinct case",
         assumptions: vec![
             "the harness is built with overflow-checks and debug-assertions on, so arithmetic overflow is an observable panic",
             "sessions keep being fed after handle_input returned Err (robustness only: the oracle here is 'returns, does not panic, bounded memory'), although callers are expected to close the connection",
